@@ -96,7 +96,8 @@ class TLock(object):
         if self.real:
             self.l.acquire()
         else:
-            assert not self.held, "lock %s re-acquired in a single-threaded extraction" % self.name
+            if self.held:
+                raise RuntimeError("lock %s is acquired while it is still held (single-threaded extraction): a later sender would block for ever" % self.name)
         self.held = True
         return True
 
